@@ -31,6 +31,10 @@ CLAIMED = {
          "Variable texts <= 3 (quick) / 5 (thorough) arbitrary bytes; script families as C01/C03/C05/C08/C10."),
  "C13": ("§6 C13", "ParsePercentageRatio / parsePercentageRatio / parseRatio and ParsePortionSpecific executed symbolically on token texts of a fixed layout with EVERY digit symbolic: the result equals digits/10^(f+2) resp. N/D in base ten (cross-multiplied), variables agree with literals and are rejected exactly outside [0,1]; metadata round trip through two real scripts for all integers (numbers, monetaries), symbolic-byte assets and strings, accounts and a grid of portions, incl. MarshalJSON = quoted text.",
          "Digit counts bounded (quick 3+3, thorough 22); ratio-variable denominators concrete per case; portion round trips on concrete texts."),
+ "C14": ("§6 C14", "SCOPED to the kernels that can be encoded: parseNumberLiteral (real strconv.Atoi from SSA), parsePercentageRatio, parseRatio on token texts with every digit symbolic; ErrorListener.SyntaxError on tokens with symbolic UTF-8 text at symbolic positions; ParseErrorsToString/ShowOnSource on small sources with the error anywhere or at <EOF>. Every reachable panic site is a violation; error ranges start at the reported position and do not end before it.",
+         "The ANTLR lexer/parser itself (termination, acceptance, rejection) is OUTSIDE the encoding: this check does not decide 'every input string'. Token stubs follow the stated ANTLR contract."),
+ "C15": ("§6 C15", "SCOPED to range arithmetic: tokenToRange and ctxToRange on tokens whose text is any valid UTF-8 of the layout (symbolic bytes) at symbolic positions span exactly the character count, children lie within parents and siblings do not overlap; Position.GtEq is the lexicographic total order and Range.Contains the closed interval, for all positions.",
+         "Tree structure, literal values, associativity and layout/comment invariance depend on the ANTLR parse and are OUTSIDE."),
 }
 
 NA = {}
